@@ -590,14 +590,16 @@ AddValuesToTable ==
 
 \* ws.close(); Workspace(path)
 Reopen ==
-    IF Corrupt(s)          \* a record without 'ID': attributes_keys raises KeyError while the group's children load
+    IF Corrupt(s) /\ s.objIds # <<>>
+    \* a record without 'ID': attributes_keys (81-93) raises KeyError while the group's holes are loaded
     THEN Done([s EXCEPT !.broken = TRUE], "Reopen", [x |-> 0], "raises", {"HoleRemovalKeepsGroupChild"}, NoTgt)
     ELSE LET R == ReopenState(s)
              \* a key whose record carries another name (RenameKeepsLabel): loading the child adds a second
-             \* 'Property:' key for the same uid (data.py:72-75); the model stops here
+             \* 'Property:' key for the same uid (data.py:72-75); the model stops here.  It also stops when the
+             \* empty record went unnoticed because there is no hole to load (the next AddHole would raise).
              stale == \E h \in LiveHoles(R) : \E k \in DOMAIN GetRec(R, h).keys :
                          LET e == GetRec(R, h).keys[k] IN HasRec(R, e.d) /\ GetRec(R, e.d).name # e.n
-         IN Done([R EXCEPT !.halt = stale], "Reopen", [x |-> 0], "ok", {}, NoTgt)
+         IN Done([R EXCEPT !.halt = stale \/ Corrupt(s)], "Reopen", [x |-> 0], "ok", {}, NoTgt)
 
 \* group.copy(name=...) | group.copy(parent=other_workspace)  (Concatenator.copy 203-273)
 CopyGroup ==
